@@ -443,7 +443,12 @@ bool vm_ffi_cop_start(VmState *vm, const NvmModule *module) {
     int pipe_to_child[2];    /* parent writes [1], child reads [0] */
     int pipe_from_child[2];  /* child writes [1], parent reads [0] */
 
-    if (pipe(pipe_to_child) != 0 || pipe(pipe_from_child) != 0) {
+    if (pipe(pipe_to_child) != 0) {
+        free(blob);
+        return false;
+    }
+    if (pipe(pipe_from_child) != 0) {
+        close(pipe_to_child[0]); close(pipe_to_child[1]);
         free(blob);
         return false;
     }
